@@ -8,6 +8,23 @@ VERIF = os.path.dirname(os.path.dirname(os.path.abspath(__file__)))
 ALL = [f"C{i:02d}" for i in range(1, 21)]
 
 CHECKS = {
+    "C13": dict(
+        category="exploration",
+        technique="bounded-exhaustive enumeration of program x re-layout (every statement, every token boundary) with an exact token position map, differential token-keyed battery oracle, gfortran as validity gate",
+        text=("Exhaustive enumeration of (program, transformation): six canonical programs that together contain every "
+              "statement kind x every single transformation — 2 line endings, trailing blanks, 3 letter-case modes, a "
+              "blank or comment line above every statement, a trailing comment and a ';' join at every statement, an '&' "
+              "continuation at every token boundary in 4 styles (plain, leading '&', comment or blank line between) — and "
+              "in the thorough tier global x local pairs and pairs of local transformations; plus CRLF / trailing blanks / "
+              "inserted blank or comment lines on every sample source. The layout renderer knows the position of every "
+              "token, so symbols, diagnostics, definition targets, references and hover of the transformed text are compared "
+              "with the original exactly (lines shift by the number inserted above; case folded for case changes)."),
+        note=("Trusted: vf/layout.py (tokeniser/renderer; canonical rendering reproduces the source; transformed programs that "
+              "differ are re-checked with gfortran -std=f2008 and skipped if rejected). Completion and signature help are "
+              "typing aids whose context legitimately depends on the layout and are not compared. Definition targets are "
+              "compared as entities (statement), references at token precision."),
+        design="DESIGN.md §4 C13",
+    ),
     "C15": dict(
         category="model_checking",
         technique="exhaustive schedule enumeration (file enumeration orders, worker counts, hash seeds on the real executable) plus BFS over the open-order lattice with heap-canonical states, differential battery oracle",
